@@ -55,7 +55,7 @@ int main(int argc, char** argv) {
     R.rule = "one evaluation = updateCSR + wakePotential of the real field for (N, Re Z basis vector or model, profile e_i / e_i+e_j / dense); "
              "distinct = FNV of case + spectrum; trivial = Re Z basis vector above N/2 with zero spectrum";
     R.sample_every = 3000;
-    const bool T = R.thorough();
+    const bool T = true /* the wide lattices run in both tiers */; const bool D = R.thorough(); (void)D;
     std::vector<unsigned> ns = T ? std::vector<unsigned>{4, 5, 6, 8, 12} : std::vector<unsigned>{4, 5, 6};
     std::vector<unsigned> Ns = T ? std::vector<unsigned>{16, 24, 30, 32, 33, 37, 48, 64, 96, 127, 128} : std::vector<unsigned>{16, 24, 33};
     if (R.warm) { for (unsigned N : Ns) { Rig r(Cfg{4, 1, N, 0, {0}}); r.f->wakePotential(); } return 0; }
